@@ -1831,6 +1831,11 @@ func patchCode(context *funcContext) { // {{{
 				}
 				distance = d
 				count++
+				if distance < 0 {
+					// a target at or before pc has already been patched: its operand is a
+					// distance, no longer a label, so the chain cannot be followed further
+					break
+				}
 			}
 			if distance == 0 {
 				context.Code.SetOpCode(pc, OP_NOP)
